@@ -127,19 +127,6 @@ const KINDS: &[&str] = &[
     "'raw' == s",
 ];
 
-/// Expressions for the "shared" class: literals of some size in every position a
-/// function can take them, expression references, built-ins of every signature shape.
-const SHARED_TEXTS: &[&str] = &[
-    "sort(`[5, 3, 9, 1, 7, 2, 8, 4, 6, 0, 11, 10]`)",
-    "[contains(`[\"a\", \"b\", \"c\", \"d\", \"e\", \"f\", \"g\", \"h\", \"i\", \"x\"]`, s), contains(`[\"a\", \"b\", \"c\", \"d\", \"e\", \"f\", \"g\", \"h\", \"i\"]`, `\"h\"`)]",
-    "sort_by(xs, &id)[*].id",
-    "map(&abs(@), a)",
-    "{p: `[1, 2, 3]`, q: a, r: reverse(`[\"z\", \"y\"]`)}",
-    "max_by(xs, &id).id",
-    "[length(`[1, 2, 3, 4, 5, 6, 7, 8, 9]`), join('-', `[\"p\", \"q\"]`), merge(`{\"a\": 1}`, `{\"b\": 2}`)]",
-    "cid(a) || to_array(s)",
-];
-
 fn gen_text(r: &mut Rng, base: &J, custom: bool) -> String {
     let extra = ExtraFns { unary: vec!["cid".into()] };
     let none = ExtraFns::default();
@@ -193,6 +180,9 @@ pub fn generate(seed: u64, class: &str) -> Scenario {
     // "manytexts": over a thousand distinct expressions through one runtime, then cache
     // hits racing cache misses (bounded caches start evicting).
     let manytexts = class == "manytexts";
+    // "longrun": several thousand cheap searches with a nested call, from four threads:
+    // anything periodic (every 4096th call ...) gets its turn.
+    let longrun = class == "longrun";
     let mut r = Rng::new(seed);
     let mut base = small_doc(&mut r);
     if class != "general" && class != "shared" && class != "crowd" && r.chance(1, 2) {
@@ -210,7 +200,7 @@ pub fn generate(seed: u64, class: &str) -> Scenario {
         docs.push(base.mutated(&mut r).to_json());
     }
     let npre = 1 + r.below(2);
-    let touch_default_first = if race || late { false } else if pool || deep || hot || shared || crowd || bigsort || manytexts { true } else { r.chance(1, 2) };
+    let touch_default_first = if race || late { false } else if pool || deep || hot || shared || crowd || bigsort || manytexts || longrun { true } else { r.chance(1, 2) };
     #[allow(unused_assignments)]
     let mut pre = vec![];
     for _ in 0..npre {
@@ -236,14 +226,42 @@ pub fn generate(seed: u64, class: &str) -> Scenario {
         docs = vec![J::Obj(vec![("groups".into(), J::Arr(groups)), ("a".into(), J::Arr(vec![J::Int(-3), J::Int(2)]))]).to_json()];
     }
     if shared {
-        pre = SHARED_TEXTS.iter().map(|t| (true, t.to_string())).collect();
+        // The big values live INSIDE the expressions, as literals: those are shared by all
+        // threads in every build (an input document is deep-copied per search under plain
+        // `sync`), and they make the searches cheap enough for Miri.  33 records with only
+        // three distinct sort keys, 33 numbers, 33 strings: long enough for size-thresholded
+        // paths in sort / sort_by / join / map / contains, and full of ties.
+        let recs = J::Arr(
+            (0..33).map(|i| J::Obj(vec![("k".into(), J::Int((i * 7 % 3) as i64)), ("id".into(), J::Int(i as i64))])).collect(),
+        )
+        .to_json();
+        let nums = J::Arr((0..33).map(|i| J::Int(((i * 11) % 17) as i64 - 5)).collect()).to_json();
+        let names = J::Arr((0..33).map(|i| J::Str(format!("n{:02}", (i * 13) % 33))).collect()).to_json();
+        pre = vec![
+            format!("sort(`{}`)", nums),
+            format!("[contains(`{}`, s), contains(`{}`, `\"n07\"`)]", names, names),
+            format!("sort_by(`{}`, &k)[*].id", recs),
+            format!("map(&abs(@), `{}`)", nums),
+            format!("{{p: `[1, 2, 3]`, q: a, r: reverse(`{}`)[:3]}}", names),
+            format!("max_by(`{}`, &id).id", recs),
+            format!("[length(`{}`), join('-', `{}`), merge(`{{\"a\": 1}}`, `{{\"b\": 2}}`)]", nums, names),
+            "cid(a) || to_array(s)".to_string(),
+            format!("sort(`{}`)[:3]", names),
+        ]
+        .into_iter()
+        .map(|t| (true, t))
+        .collect();
+        docs = vec!["{\"s\": \"h\", \"a\": [3, -1]}".to_string(), "{\"s\": \"n07\", \"a\": [-4]}".to_string()];
+    }
+    if longrun {
+        pre = vec![(true, "map(&abs(@), a)[0]".to_string())];
     }
     if bigsort {
         let ys: Vec<J> = (0..4600).map(|i| J::Int(((i * 7919) % 4001) as i64)).collect();
         let zs: Vec<J> = (0..4300).map(|i| J::Int(((i * 104729) % 3001) as i64 + 5000)).collect();
         docs = vec![J::Obj(vec![("ys".into(), J::Arr(ys))]).to_json(), J::Obj(vec![("ys".into(), J::Arr(zs))]).to_json()];
     }
-    let nthreads = if pool { 3 + r.below(2) } else if deep { 5 } else if hot || shared { 4 } else if crowd { 20 } else if bigsort { 3 } else if manytexts { 2 } else { 2 + r.below(3) };
+    let nthreads = if pool { 3 + r.below(2) } else if deep { 5 } else if hot || shared { 4 } else if crowd { 20 } else if bigsort { 3 } else if manytexts { 2 } else if longrun { 4 } else { 2 + r.below(3) };
     let mut pool_texts: Vec<String> = vec!["a".to_string(), "s".to_string(), String::new()];
     if !pool {
         pool_texts = (0..3).map(|_| gen_text(&mut r, &base, false)).collect();
@@ -296,6 +314,11 @@ pub fn generate(seed: u64, class: &str) -> Scenario {
                 }
             }
         }
+        if longrun {
+            for _ in 0..1100 {
+                ops.push(Op::Search { e: 0, d: 0, form: 0 });
+            }
+        }
         if shared {
             let _ = t;
             for e in 0..pre.len() {
@@ -339,7 +362,7 @@ pub fn generate(seed: u64, class: &str) -> Scenario {
                 ops.push(Op::CompileSearch { text, d });
             }
         }
-        if !(race || late || pool || deep || hot || shared || crowd || bigsort || manytexts) {
+        if !(race || late || pool || deep || hot || shared || crowd || bigsort || manytexts || longrun) {
             // general class: a sliding window over KINDS, shifted by one per thread, so that
             // neighbouring threads evaluate the same kinds (compiled afresh or pre-compiled)
             let start = r.below(KINDS.len());
@@ -348,7 +371,7 @@ pub fn generate(seed: u64, class: &str) -> Scenario {
                 ops.push(Op::CompileSearch { text: KINDS[(start + t + k) % KINDS.len()].to_string(), d });
             }
         }
-        for _ in ops.len()..(if deep || hot || shared || crowd || bigsort || manytexts { 0 } else { nops.max(ops.len() + 1) }) {
+        for _ in ops.len()..(if deep || hot || shared || crowd || bigsort || manytexts || longrun { 0 } else { nops.max(ops.len() + 1) }) {
             let d = r.below(docs.len());
             let e = r.below(pre.len());
             ops.push(match r.below(10) {
